@@ -286,6 +286,12 @@ def callback(rng, stop=True):
         cb["stop_at"] = int(rng.integers(1, 40))
     if rng.random() < 0.2:
         cb["overwrite"] = True
+    if rng.random() < 0.2:
+        # the callback RETURNS something (other solvers of
+        # scipy.optimize.minimize read a true return value as a stop
+        # request; cobyqa documents StopIteration only)
+        cb["returns"] = str(rng.choice(["True", "np_true", "one", "str",
+                                        "list", "False", "array"]))
     return cb
 
 
